@@ -19,7 +19,10 @@ MANIFEST = {
             "several leading shapes and dtypes are mapped by every public conversion API and compared with an independent "
             "float64 model of the four coordinate systems; metamorphic inverse/composition laws with and without the default "
             "rounding; documented anchors; the 1-D sample lattice for n in [1,4096] (exhaustive in the thorough tier); "
-            "identity sampling; Cube maps; tensor-level helpers. Exploration, not proof.",
+            "identity sampling; Cube maps; tensor-level helpers. A third of the grids (first and second) have a history: they are "
+            "obtained by 1-2 derivation steps with deepali's own Grid methods from a Grid object that was already used, and the "
+            "model is then built from the attributes the derived object reports. Read-only calls must leave every Grid object "
+            "bit-identical. Exploration, not proof.",
     "note": "Trusted: the float64 numpy grid model in vlib/ref.py (written from the README/docstrings; self-tested against "
             "SimpleITK in C02). Tolerance 64*eps32*condition because deepali stores grid attributes in float32.",
     "technique": "property-based testing (Hypothesis) against a float64 reference model, metamorphic round-trip/composition "
@@ -27,6 +30,9 @@ MANIFEST = {
 }
 ASSUMPTIONS = [
     "grids: size 1..64 per axis (cube axes need n >= 2), spacing in [0.05, 20], |center| <= 500, |det direction| = 1",
+    "grids with a history: the float64 model uses the attributes (size, spacing, center, direction, flag) the derived Grid object "
+    "reports - the maps must be consistent with those; whether the derived attributes are the right ones is property C03's subject; "
+    "steps that would give a fractional internal size, resize an axis with a single sample or leave too few samples are skipped",
     "normalize_grid/denormalize_grid with align_corners=False are only checked as an inverse pair: their docstrings do not "
     "define the 'unnormalized' coordinate for that convention (they map index i to 2i/n-1, not the grid's (2i+1)/n-1)",
 ]
